@@ -47,6 +47,9 @@ mod windows;
 
 pub mod sinc_interpolator;
 
+#[cfg(rubato_verif)]
+pub mod verif;
+
 pub use crate::asynchro_fast::{FastFixedIn, FastFixedOut, PolynomialDegree};
 pub use crate::asynchro_sinc::{
     SincFixedIn, SincFixedOut, SincInterpolationParameters, SincInterpolationType,
